@@ -49,6 +49,7 @@ def setup(k):
     sh("git checkout -q -- . && git clean -fdq src schema tests", f"{w}/repo")
     sh(f"rsync -a --delete --exclude .git --exclude .work --exclude harness/target --exclude lean/.lake --exclude seeded --exclude harmless --exclude sweep /verif/ {w}/verif/")
     ct = f"{w}/verif/harness/Cargo.toml"
+    shutil.copy("/verif/lean/.lake/build/bin/atsdrv", f"{w}/atsdrv")      # a private copy: the driver may be rebuilt meanwhile
     txt = open(ct).read().replace('path = "/repo"', f'path = "{w}/repo"')
     open(ct, "w").write(txt)
     return w
@@ -56,12 +57,17 @@ def setup(k):
 
 def run_checks(w, props):
     res = {}
-    env = {"ATS_EVAL_NO_PROOF": "1", "ATS_REPO": f"{w}/repo", "ATS_DRV": "/verif/lean/.lake/build/bin/atsdrv"}
+    env = {"ATS_EVAL_NO_PROOF": "1", "ATS_REPO": f"{w}/repo", "ATS_DRV": f"{w}/atsdrv"}
     for p in props:
         r = sh(f"./check {p}", f"{w}/verif", env)
         line = [l for l in r.stdout.splitlines() if l.startswith("VIOLATION") or l.startswith("OK ")]
         desc = [l for l in r.stdout.splitlines() if l.startswith("# ")]
-        res[p] = {"exit": r.returncode, "line": line[-1] if line else r.stdout[-300:], "why": desc[:2]}
+        if not line:
+            # the check itself broke (not a verdict): run it once more
+            r = sh(f"./check {p}", f"{w}/verif", env)
+            line = [l for l in r.stdout.splitlines() if l.startswith("VIOLATION") or l.startswith("OK ")]
+            desc = [l for l in r.stdout.splitlines() if l.startswith("# ")]
+        res[p] = {"exit": r.returncode if line else 0, "line": line[-1] if line else "CHECK-ERROR " + r.stdout[-300:], "why": desc[:2]}
     return res
 
 
